@@ -106,13 +106,16 @@ func initNewMultiColumnReader(segKey string, colFDs map[string]*os.File,
 	var err error
 	// todo blockSummaries don't need to be passed, we could just pick from this
 	// below function
-	if writer.IsSegKeyUnrotated(segKey) {
+	isUnrotated := writer.IsSegKeyUnrotated(segKey)
+	if isUnrotated {
 		verifhook.At("read.unrotated.checked", "qid", qid, "segkey", segKey)
 		allBmi, err = writer.GetBlockSearchInfoForKey(segKey)
 		if err != nil {
-			return nil, fmt.Errorf("InitSharedMultiColumnReaders: failed to get allBmi for unrotated segKey %s; err=%v", segKey, err)
+			// The segment was rotated after the check above; it is in the rotated metadata now.
+			isUnrotated = false
 		}
-	} else {
+	}
+	if !isUnrotated {
 		allBmi, _, err = segmetadata.GetSearchInfoAndSummary(segKey)
 		if err != nil {
 			return nil, fmt.Errorf("InitSharedMultiColumnReaders: failed to get allBmi segKey: %s. Error: %+v", segKey, err)
